@@ -46,7 +46,8 @@ CLAIMS = {
   technique="Lean 4 proof: scalar Encode/Decode refine big-endian integers below n (Reduce borrow chain and Montgomery conversions proved)",
   text="Kernel-checked: Encode is the 32-byte big-endian canonical value; Decode accepts exactly 32-byte strings below n and stores that integer, rejects the empty input, other lengths and values >= n "
        "with their distinct errors; both round trips; hex variants agree.",
-  note=TB + "Error ladder and hex wrappers are hand models tied by the scenc/sfenc families (window around n, all lengths 0..70)."),
+  note=TB + "Encode/Decode/Hex/DecodeHex/MarshalBinary/UnmarshalBinary and the byte-level functions of internal/scalar are regenerated on every run (byte-slice mode) and proved equal to the model "
+       "(codec_regenerated, byte_functions_regenerated, regenerated_roundtrip); encoding/hex and encoding/binary are modelled; the scenc/sfenc families (window around n, all lengths 0..70) run the real code."),
  "C08": dict(
   technique="Lean 4 proof: refinement of the expander, wide reduction, regenerated SSWU and isogeny, and complete addition to an independent RFC 9380 specification, for every hash with 32-byte output",
   text="Kernel-checked for every hash function H with 32-byte output, every message, every non-empty DST of any length: HashToGroup/EncodeToGroup return a valid element whose abstract point is "
@@ -75,8 +76,8 @@ CLAIMS = {
   technique="Lean 4 proof: generated Fiat functions = structured reference by rfl, reference correct for any valid Montgomery modulus; bit tricks, chains, byte conversion proved; lawful-field instance",
   text="Kernel-checked for all canonical limb tuples: Add, Sub, Mul, Square, Neg exact in F_p and canonical; Invert (270-step chain) = x^-1; SqrtRatio meets the RFC 9380 F.2.1.2 contract; Sgn0, IsZero, Equals, CMove, "
        "FromBytesWithReduce, Bytes, HashToFieldElement, To/FromMontgomery; canonical forms are unique; p is prime.",
-  note=TB + "The method wrappers of internal/field/element.go (Add ... CMove, IsZero, Sgn0, Equals) are regenerated and tied to the operations record by rfl; byte conversion and the wide reduction are hand models "
-       "tied by the field family (4000 / thorough 1000000 edge-heavy operand tuples, near-equal pairs, alias variants)."),
+  note=TB + "The method wrappers of internal/field/element.go (Add ... CMove, IsZero, Sgn0, Equals) are regenerated and tied to the operations record by rfl; Bytes, FromBytesWithReduce, FromBytesNoReduce, HashToFieldElement and the byte/limb conversions are regenerated (byte-slice mode) and "
+       "proved equal to the model (byte_functions_regenerated); the field family (4000 / thorough 1000000 edge-heavy operand tuples, near-equal pairs, alias variants) runs the real code."),
  "C13": dict(
   technique="Lean 4 proof: bit-trick lemmas and Montgomery conversion give LessOrEqual = integer order, CSelect for every condition word",
   text="Kernel-checked: Equal/IsZero/IsOne decide equality of canonical values; LessOrEqual is the integer order of the canonical values; CSelect returns u for cond = 0 and v for every non-zero 64-bit condition word; nil cases.",
